@@ -27,7 +27,7 @@ pub fn run<C: Suite>(ctx: &mut Ctx) {
         (false, false) => vec![2, 3, 4, 5, 6, 7],
     };
     for k in ks {
-        for kind in ["default", "sparse-u16", "derived"] {
+        for kind in ["default", "sparse-u16", "derived", "big-scalar"] {
             for extra in [0u16, 2] {
                 if ctx.quick() && extra == 2 && kind != "default" {
                     continue;
@@ -193,6 +193,21 @@ fn item<C: Suite>(ctx: &mut Ctx, n: u16, t: u16, k: usize, kind: &str) {
             cm.insert(*idj, c2);
             variants.push((format!("commitment/{what}/slot{j}"), SigningPackage::new(cm, &a.msg), vk));
         }
+        // the substitution that keeps this signer's contribution D + rho*E to the group commitment: (D + rho*T, E - T).
+        // It goes unnoticed exactly when the binding factors do not depend on this signer's commitments. (rho is read
+        // from the library to build the input; the verdict is the ordinary one: the package differs, so reject.)
+        for vkc in [vk, VerifyingKey::<C>::new(ident::<C>() - vk.to_element())] {
+            let Ok(bfl) = frost_core::compute_binding_factor_list(&a.s.pkg, &vkc, &[]) else { continue };
+            let Some(rho) = bfl.get(idj).and_then(|b| sc_decode::<C>(&b.serialize())) else { continue };
+            let tt = rand_el(&mut p);
+            let c2 = SigningCommitments::new(NonceCommitment::<C>::new(ca.hiding().value() + tt * rho), NonceCommitment::<C>::new(ca.binding().value() - tt));
+            let mut cm = a.s.comms.clone();
+            cm.insert(*idj, c2);
+            variants.push((format!("commitment/contribution-preserving/slot{j}"), SigningPackage::new(cm, &a.msg), vk));
+            if !C::TAPROOT {
+                break;
+            }
+        }
         // participant replaced / removed
         if let Some(o) = outsiders.first() {
             let mut cm = a.s.comms.clone();
@@ -278,6 +293,65 @@ fn item<C: Suite>(ctx: &mut Ctx, n: u16, t: u16, k: usize, kind: &str) {
                 }
             }
             ctx.class(format!("S={k}/share-map-superset/{nm}"));
+        }
+    }
+
+    // ---- 2c. a share filed under another identifier, the map keeping its size ------------------
+    {
+        let mut relabels: Vec<(&str, Identifier<C>, Identifier<C>)> = vec![];
+        for (x, from) in signers.iter().enumerate() {
+            if let Some(o) = outsiders.get(x % outsiders.len().max(1)) {
+                relabels.push(("to-non-signing-member", *from, *o));
+            }
+        }
+        if let Ok(stranger) = Identifier::<C>::try_from(60_002u16) {
+            if !grp.ids.contains(&stranger) {
+                relabels.push(("to-stranger", signers[k - 1], stranger));
+            }
+        }
+        for (nm, from, to) in relabels {
+            let mut m = a.s.shares.clone();
+            let sh = m.remove(&from).unwrap();
+            m.insert(to, sh);
+            for (mode, mname) in [(CheaterDetection::FirstCheater, "first"), (CheaterDetection::AllCheaters, "all"), (CheaterDetection::Disabled, "disabled")] {
+                match frost_core::aggregate_custom(&a.s.pkg, &m, &grp.pkp, mode) {
+                    Err(e) => ctx.count(&format!("share-relabelled/{nm}/{}", err_name(&e))),
+                    Ok(_) => ctx.viol("share-map-not-bound-to-signer-set", &format!("relabelled-{nm}/{mname}"), d("aggregate accepted a share filed under an identifier that is not in the signing package", json!({"from": id_hex::<C>(&from), "as": id_hex::<C>(&to)}))),
+                }
+                ctx.count("relabel_verdicts");
+            }
+            ctx.class(format!("S={k}/share-relabelled/{nm}"));
+        }
+        // two signers' shares exchanged (both identifiers in the package)
+        if k >= 2 {
+            let (i, j) = (signers[0], signers[k - 1]);
+            let mut m = a.s.shares.clone();
+            let (si, sj) = (m[&i], m[&j]);
+            if si != sj {
+                m.insert(i, sj);
+                m.insert(j, si);
+                for (mode, mname) in [(CheaterDetection::FirstCheater, "first"), (CheaterDetection::AllCheaters, "all")] {
+                    match frost_core::aggregate_custom(&a.s.pkg, &m, &grp.pkp, mode) {
+                        Err(e) => {
+                            let cul = e.culprits();
+                            if cul.is_empty() || cul.iter().any(|c| *c != i && *c != j) {
+                                ctx.viol("substituted-field-accepted", &format!("exchanged-shares-culprits/{mname}"), d("exchanged shares: the error does not name one of the two", json!({"err": format!("{e:?}")})));
+                            }
+                        }
+                        // the sum is unchanged, so what comes out is the session's valid signature: aggregation verifies the
+                        // result first and looks at individual shares only when that fails (RFC 9591 does no more). Releasing
+                        // the valid signature is therefore correct; releasing anything else is not.
+                        Ok(sig) => {
+                            let sb = sig.serialize().unwrap_or_default();
+                            if !indep_verify::<C>(&vk.serialize().unwrap_or_default(), &a.msg, &sb) {
+                                ctx.viol("substituted-field-accepted", &format!("exchanged-shares-invalid-signature/{mname}"), d("aggregate released an invalid signature for exchanged shares", json!({"sig": hex::encode(&sb)})));
+                            }
+                            ctx.count("exchanged_shares_released_valid_signature");
+                        }
+                    }
+                    ctx.count("relabel_verdicts");
+                }
+            }
         }
     }
 
